@@ -296,7 +296,7 @@ theorem handle_noSwap (s s' : Sys) (m : Msg) (ms : List Msg) (hx : s.handle m = 
     intro x hx'
     obtain ⟨t, d, a, he⟩ := hb x hx'
     subst he; rfl
-  | hub s1 sender funds hm _ _ _ hx' _ _ _ _ _ => exact hubExec_noSwap _ _ _ _ _ _ _ hx'
+  | hub s1 sender funds hm _ _ _ _ hx' _ _ _ _ _ => exact hubExec_noSwap _ _ _ _ _ _ _ hx'
   | bsei s1 sender funds tm _ _ hx' _ _ _ _ _ => exact bseiExec_noSwap _ _ _ _ _ _ _ _ _ hx'
   | stsei blk sender funds tm _ hx' _ _ _ _ _ => exact stseiExec_noSwap _ _ _ _ _ _ _ _ hx'
   | reward s1 sender funds rm _ _ _ _ hx' _ _ _ _ _ => exact rewardExec_noSwap _ _ _ _ _ _ _ _ _ hx'
